@@ -159,9 +159,15 @@ def run_job(job, deadline):
                 cf = None if ncf == 0 else (pd.DataFrame({f"C{j}": cf_cols[j] for j in range(ncf)}, index=idx) if ncf > 1
                                             else pd.Series(cf_cols[0], index=idx, name="control_feature_0"))
             try:
+                # every other structure: the frame under test is the SECOND one built from the very same argument objects (a caller re-using its
+                # metrics / sample_params dictionaries and feature objects for another frame); the first one is computed and thrown away
+                again = si % 2 == 1
                 if job["form"] == "callable":
-                    mf = MetricFrame(metrics=metric_g, y_true=np.array(t, dtype=object), y_pred=p, sensitive_features=sf, control_features=cf,
-                                     sample_params={"s": np.array(s, dtype=object)})
+                    kw = dict(metrics=metric_g, y_true=np.array(t, dtype=object), y_pred=p, sensitive_features=sf, control_features=cf,
+                              sample_params={"s": np.array(s, dtype=object)})
+                    if again:
+                        MetricFrame(**kw).by_group
+                    mf = MetricFrame(**kw)
                     names = ["metric_g"]
                 elif job["form"] == "intcount":
                     # integer-valued metrics only (row count, bare and in a dict): cells are python/numpy ints, an empty combination is still NaN
@@ -169,14 +175,20 @@ def run_job(job, deadline):
                     mfd = MetricFrame(metrics={"n": metric_count, "n2": metric_count2}, y_true=t, y_pred=p, sensitive_features=sf, control_features=cf)
                     return ("intcount", mfc.by_group, mfc.overall, mfd.by_group, mfd.overall)
                 elif job["form"] == "dict":
-                    mf = MetricFrame(metrics={"g": metric_g, "h": metric_h}, y_true=t, y_pred=np.array(p, dtype=object), sensitive_features=sf,
-                                     control_features=cf, sample_params={"g": {"s": s}})
+                    kw = dict(metrics={"g": metric_g, "h": metric_h}, y_true=t, y_pred=np.array(p, dtype=object), sensitive_features=sf,
+                              control_features=cf, sample_params={"g": {"s": s}})
+                    if again:
+                        MetricFrame(**kw).by_group
+                    mf = MetricFrame(**kw)
                     names = ["g", "h"]
                 else:
                     # the SAME callable under two names with DIFFERENT per-sample parameters (and a third metric without any)
                     s2 = [real(f"r{i}") for i in range(n)]
-                    mf = MetricFrame(metrics={"g": metric_g, "g2": metric_g, "h": metric_h}, y_true=t, y_pred=np.array(p, dtype=object), sensitive_features=sf,
-                                     control_features=cf, sample_params={"g": {"s": s}, "g2": {"s": np.array(s2, dtype=object)}})
+                    kw = dict(metrics={"g": metric_g, "g2": metric_g, "h": metric_h}, y_true=t, y_pred=np.array(p, dtype=object), sensitive_features=sf,
+                              control_features=cf, sample_params={"g": {"s": s}, "g2": {"s": np.array(s2, dtype=object)}})
+                    if again:
+                        MetricFrame(**kw).by_group
+                    mf = MetricFrame(**kw)
                     names = ["g", "g2", "h"]
                     s = {"g": s, "g2": s2}
                 return t, p, s, mf.by_group, mf.overall, names, mf.sensitive_levels, mf.control_levels
@@ -307,6 +319,7 @@ def replay(cex):
         sf = pd.DataFrame({f"S{j}": sf_cols[j] for j in range(nsf)}, index=idx) if nsf > 1 else pd.Series(sf_cols[0], index=idx, name="sensitive_feature_0")
         cf = None if ncf == 0 else (pd.DataFrame({f"C{j}": cf_cols[j] for j in range(ncf)}, index=idx) if ncf > 1 else pd.Series(cf_cols[0], index=idx, name="control_feature_0"))
     bad = []
+    again = si % 2 == 1
     if job["form"] == "intcount":
         mfc = MetricFrame(metrics=metric_count, y_true=t, y_pred=p, sensitive_features=sf, control_features=cf)
         mfd = MetricFrame(metrics={"n": metric_count, "n2": metric_count2}, y_true=t, y_pred=p, sensitive_features=sf, control_features=cf)
@@ -315,15 +328,24 @@ def replay(cex):
         return {"reproduced": bool(problems), "detail": "; ".join(problems)[:600] + f" | struct={struct} layout={job['layout']}"}
     try:
         if job["form"] == "callable":
-            mf = MetricFrame(metrics=g, y_true=np.array(t), y_pred=p, sensitive_features=sf, control_features=cf, sample_params={"s": np.array(s)})
+            kw = dict(metrics=g, y_true=np.array(t), y_pred=p, sensitive_features=sf, control_features=cf, sample_params={"s": np.array(s)})
+            if again:
+                MetricFrame(**kw).by_group
+            mf = MetricFrame(**kw)
             names = ["g"]
         elif job["form"] == "dict":
-            mf = MetricFrame(metrics={"g": g, "h": h}, y_true=t, y_pred=np.array(p), sensitive_features=sf, control_features=cf, sample_params={"g": {"s": s}})
+            kw = dict(metrics={"g": g, "h": h}, y_true=t, y_pred=np.array(p), sensitive_features=sf, control_features=cf, sample_params={"g": {"s": s}})
+            if again:
+                MetricFrame(**kw).by_group
+            mf = MetricFrame(**kw)
             names = ["g", "h"]
         else:
             s2 = [float(7 ** (i + 1)) for i in range(n)]
-            mf = MetricFrame(metrics={"g": g, "g2": g, "h": h}, y_true=t, y_pred=np.array(p), sensitive_features=sf, control_features=cf,
-                             sample_params={"g": {"s": s}, "g2": {"s": np.array(s2)}})
+            kw = dict(metrics={"g": g, "g2": g, "h": h}, y_true=t, y_pred=np.array(p), sensitive_features=sf, control_features=cf,
+                      sample_params={"g": {"s": s}, "g2": {"s": np.array(s2)}})
+            if again:
+                MetricFrame(**kw).by_group
+            mf = MetricFrame(**kw)
             names = ["g", "g2", "h"]
         fn = {"g": lambda rows: sum(t[i] * p[i] * s[i] for i in rows), "h": lambda rows: sum(t[i] * p[i] for i in rows)}
         if job["form"] == "dict2":
